@@ -19,7 +19,10 @@
     checked against the block.  It mirrors the code after fixes C07-bundle-len / C07-blob-len /
     C07-empty-string-size: with `total = SIZE_MAX` the new guards `pos > total`,
     `advance > total-pos`, `i > total-pos` can never fire (all operands are 32-bit values), so
-    they do not appear; the string case scans from the first byte of the string.
+    they do not appear; the string case scans from the first byte of the string.  The guard of
+    fix C06-bundle-length-wrap (`advance && (uint64_t)pos+4+advance > UINT32_MAX`: the end of
+    the element is no `unsigned` position) does not depend on `total` and is modelled: it is
+    what makes the bundle walk terminate (`bundleLoopU_terminates`, Proofs/BundleLength.lean).
   * A destination buffer is a `Bytes` of exactly `len` bytes; stores go through `BW.store`,
     which records in `oob` whether an index `≥ len` was written (the store is dropped).
   * `unsigned pos` / `uint32_t` arithmetic wraps (`u32`); pointers and `size_t` do not
@@ -101,14 +104,16 @@ def lenLoopU (m : Bytes) (aligned : Nat) : Nat → Bytes → Nat → Rd Nat
         lenLoopU m aligned tp ts pos
     else lenLoopU m aligned (tp + 1) ts pos
 
-/-- the `do … while(advance)` loop of `bundle_ring_length` (rtosc.c:551) -/
+/-- the `do … while(advance)` loop of `bundle_ring_length` (rtosc.c:551); `return 0` when the
+    end of an element is no `unsigned` position (fix C06-bundle-length-wrap) -/
 def bundleLoopU (m : Bytes) : Nat → Nat → Rd Nat
   | 0, _ => .hang
   | f + 1, pos =>
     match rd32U m pos with
     | none => .oob
     | some v =>
-      if v.toNat ≠ 0 then bundleLoopU m f (u32 (pos + u32 (4 + v.toNat))) else .ok pos
+      if v.toNat ≠ 0 ∧ pos + 4 + v.toNat > 4294967295 then .ok 0
+      else if v.toNat ≠ 0 then bundleLoopU m f (u32 (pos + u32 (4 + v.toNat))) else .ok pos
 
 /-- `deref(0)=='#' && deref(1)=='b' && …` with C's short-circuit evaluation -/
 def magicU (m : Bytes) : Bytes → Nat → Option Bool
